@@ -21,7 +21,7 @@ ASSUMPTIONS = [
     "E[v] must return the first name in insertion order whose value == v, '' if none (property statement); re-adding a removed name appends it at the end, as in a dict",
     "constructing from an empty mapping: Enum({}) is accepted (OpCode relies on it); Enum() with neither dict nor keywords is refused by design and not generated",
 ]
-REQUIRED_PROBES = ["opcode_serviceaction_enum", "add_ok", "remove_ok", "add_existing_refused", "remove_missing_refused", "duplicate_values", "multi_enum"]
+REQUIRED_PROBES = ["shared_source_dict", "source_dict_mutated", "opcode_serviceaction_enum", "add_ok", "remove_ok", "add_existing_refused", "remove_missing_refused", "duplicate_values", "multi_enum"]
 
 NAMES = ["A", "B", "C", "READ_10", "x", "y1", "Zz", "value", "name_", "k9", "5.25", "CD-I", "CD-ROM XA", "Less than 1.8", "a b", "é"]
 RESERVED = {"keys", "add", "remove", "mro", "__getitem__"}
@@ -60,6 +60,11 @@ def generate(rng, idx, tier):
         if r < 0.1:
             ops.append({"op": "new", "form": rng.choice(["dict", "kw", "opcode", "opcode"]),
                         "items": [[rng.choice(NAMES), gen_value(rng)] for _ in range(rng.choice([0, 0, 1, 3, 5]))]})
+            if rng.random() < 0.35:
+                ops[-1]["share_source_with"] = e      # built from the very same dict object as an earlier enumeration
+        elif r < 0.14:
+            # the caller goes on using (and changing) the dict it built an enumeration from
+            ops.append({"op": "mutate_source", "e": e, "name": rng.choice(NAMES), "value": gen_value(rng), "delete": rng.random() < 0.4})
         elif r < 0.35:
             ops.append({"op": "add", "e": e, "name": rng.choice(NAMES), "value": gen_value(rng)})
         elif r < 0.55:
@@ -95,7 +100,7 @@ def execute(prog):
     WORLD.reset()
     from pyscsi.utils.enum import Enum
     V = []
-    enums, models = [], []
+    enums, models, sources = [], [], []
     summary = []
 
     def viol(oracle, detail, expected, actual):
@@ -144,6 +149,9 @@ def execute(prog):
             form = op["form"]
             if form == "kw" and (not d or not all(k.isidentifier() for k in d)):
                 form = "dict"
+            if "share_source_with" in op and sources and form != "kw":
+                d = sources[op["share_source_with"] % len(sources)]     # the same dict object again
+                WORLD.probe("shared_source_dict")
             try:
                 if form == "opcode":
                     # the service-action enumeration an OpCode object builds from a mapping (possibly empty)
@@ -157,6 +165,7 @@ def execute(prog):
                 continue
             enums.append(E)
             models.append(dict(d))
+            sources.append(d)
             summary.append("new%d" % len(d))
             if len(enums) > 1:
                 WORLD.probe("multi_enum")
@@ -231,6 +240,13 @@ def execute(prog):
                     got = "raises " + type(e).__name__
                 if got != want:
                     viol("C18.reverse", "lookup", "E[%s] == %r" % (show(v), want), repr(got))
+            elif name == "mutate_source":
+                src = sources[n]
+                if op.get("delete") and src:
+                    src.pop(next(iter(src)))
+                else:
+                    src[op["name"]] = real(op["value"])
+                WORLD.probe("source_dict_mutated")
             elif name == "keys":
                 pass
         compare_all("%s#%d" % (name, i))
